@@ -212,3 +212,34 @@ def ob_retry_behind_other_timer(d: int, w: int, it: int) -> bool:
     if obs["errors"] or obs["loop_exceptions"]:
         return False
     return obs["status"] == "completed" and obs["result"] == 1 and obs["aborts"] == 0
+
+
+def _timeout_then_retry_wf(w: int, d: int):
+    """A wait times out (w), the woken step turns that into a failure, and its retry waits out a delay (d)."""
+
+    class TR(Workflow):
+        @step(retry_policy=retry_policy(wait=wait_fixed(d), stop=stop_after_attempt(4)))
+        async def s0(self, ctx: Context, ev: StartEvent) -> StopEvent:
+            if ctx.retry_info().retry_number >= 1:
+                return StopEvent(result="retried")
+            await ctx.wait_for_event(Resp, waiter_id="w", timeout=w)   # nobody answers: TimeoutError escapes -> step failure -> delayed retry
+            return StopEvent(result="answered")
+
+    return TR(timeout=None)
+
+
+@obligation(quick=240, thorough=600, partitions_quick=[f"it == {i}" for i in (1, 2, 3)], partitions_thorough=[f"it == {i} and d == {d}" for i in (1, 2, 3, 4) for d in (1, 2, 3)],
+            what="a run that was announced idle (parked in a wait) leaves idleness BY ITSELF: the waiter times out in memory (w <= idle_timeout), the "
+                 "woken step fails and its retry waits out a delay d that carries past the idle timeout: the release timer of the earlier idle "
+                 "announcement must not abort the run while that retry is pending; the step is retried and the run completes",
+            bounds={"w": "1..idle_timeout", "d": "1..3", "idle_timeout": "1..4"})
+def ob_timeout_then_retry_vs_idle(w: int, d: int, it: int) -> bool:
+    """
+    pre: 1 <= it <= ITMAX and 1 <= w <= it and 1 <= d <= DMAX + 1
+    post: _
+    """
+    w, d, it = conc(w, 1, 4), conc(d, 1, 4), conc(it, 1, 4)
+    obs = run_first(lambda: _timeout_then_retry_wf(w, d), idle_timeout=it, horizon=w + d + it + 6)
+    if obs["errors"] or obs["loop_exceptions"]:
+        return False
+    return obs["status"] == "completed" and obs["result"] == "retried" and obs["aborts"] == 0
